@@ -124,6 +124,10 @@ func (sr *SequenceRule) sanitize(lookupCount uint16) error {
 	return nil
 }
 
+// IsSupported returns false for a condition with an unknown format, or
+// an absent one (NULL offset): such a condition is never met.
+func (c ConditionFormat1) IsSupported() bool { return c.format == 1 }
+
 type SequenceContextFormat2 struct {
 	format          uint16                 `unionTag:"2"`
 	coverage        Coverage               `offsetSize:"Offset16"`                            //	Offset to Coverage table, from beginning of SequenceContextFormat2 table
